@@ -40,7 +40,7 @@ let cls_of = function "admt" -> admt_class | "adm" -> adm_class
 
 let handle (fs : string list) : string =
   match fs with
-  | ["splitlines"; s] -> field_of_strs (splitlines (str_of_field s))
+  | ["splitlines"; s] -> field_of_strs (split_lines (str_of_field s))
   | ["info"; s] ->
       let (n, a) = parse_info (str_of_field s) in
       field_of_str n ^ " " ^ field_of_str a ^ " " ^ field_of_ostr (directive_name n)
@@ -58,6 +58,11 @@ let handle (fs : string list) : string =
            String.concat " " (List.map (fun ((inl, t), ln) ->
              (if inl then "1" else "0") ^ "|" ^ field_of_str t ^ "|" ^ string_of_int (int_of_nat ln)) cs))
        | Raise e -> "!" ^ exn_name e)
+  | ["fence"; text] ->
+      (match parse_fence (split_lines (str_of_field text)) with
+       | None -> "none"
+       | Some f -> String.concat " " [(if f.fe_colon then "1" else "0"); field_of_str f.fe_info;
+                                      field_of_str f.fe_content; string_of_int (int_of_n f.fe_lines)])
   | ["closes"; k; len; l] ->
       if closes (fk k) (nat_of_int (int_of_string len)) (str_of_field l) then "1" else "0"
   | _ -> "!badcmd"
